@@ -92,7 +92,57 @@ func referenceCall(c *sc.Case) (shape func() hbref.Output, done func(), ok bool)
 	}
 	var f *hbref.Face
 	done = func() {}
-	if c.Synth != nil {
+	itemOffset, itemLength := c.RunStart, c.RunEnd-c.RunStart
+	if c.Fill == sc.FillAddRune {
+		// rune by rune: the reference gets the run with exactly the context the case installs
+		// and numbers its items from 0 (the caller of referenceClusters translates)
+		lo, hi := c.RunStart, c.RunEnd
+		if c.CtxPre {
+			lo = 0
+		}
+		if c.CtxPost {
+			hi = len(text)
+		}
+		text = append(make([]rune, 0, hi-lo+1), text[lo:hi]...)
+		itemOffset -= lo
+		if !c.CtxPre && itemOffset != 0 {
+			return nil, nil, false
+		}
+	}
+	if c.HasInstance() {
+		// instance settings: a reference face of its own (the cached one is shared)
+		var b []byte
+		var err error
+		if c.Synth != nil {
+			b, err = synthfont.Build(*c.Synth)
+		} else {
+			b, err = corpus.Bytes(c.Font)
+		}
+		if err != nil || c.Index >= hbref.FaceCount(b) {
+			return nil, nil, false
+		}
+		if f = hbref.NewFace(b, c.Index); f == nil {
+			return nil, nil, false
+		}
+		done = f.Close
+		switch {
+		case len(c.Vars) > 0:
+			vs := make([]hbref.Variation, len(c.Vars))
+			for i, v := range c.Vars {
+				vs[i] = hbref.Variation{Tag: hbref.Tag(v.Tag), Value: v.Value}
+			}
+			f.SetVariations(vs)
+		case len(c.Coords) > 0:
+			cs := make([]int32, len(c.Coords))
+			for i, v := range c.Coords {
+				cs[i] = int32(v)
+			}
+			f.SetNormalizedCoords(cs)
+		}
+		if c.XPpem != 0 || c.YPpem != 0 {
+			f.SetPpem(c.XPpem, c.YPpem)
+		}
+	} else if c.Synth != nil {
 		// generated font: built for this call only (not cached: the C side holds the bytes)
 		b, err := synthfont.Build(*c.Synth)
 		if err != nil {
@@ -116,7 +166,7 @@ func referenceCall(c *sc.Case) (shape func() hbref.Output, done func(), ok bool)
 		flags |= 0x80
 	}
 	in := hbref.Input{
-		Text: text, ItemOffset: c.RunStart, ItemLength: c.RunEnd - c.RunStart,
+		Text: text, ItemOffset: itemOffset, ItemLength: itemLength,
 		Flags: flags, ClusterLevel: int(c.ClusterLevel),
 		Invisible: c.Invisible, NotFound: c.NotFound, SetNotFound: c.NotFound != 0,
 	}
@@ -146,8 +196,13 @@ func referenceCall(c *sc.Case) (shape func() hbref.Output, done func(), ok bool)
 		scale = int(face.Upem())
 	}
 	ptem := c.Ptem
+	yScale := int(c.YScale)
 	return func() hbref.Output {
-		f.SetScale(scale, scale)
+		if yScale != 0 {
+			f.SetScale(scale, yScale)
+		} else {
+			f.SetScale(scale, scale)
+		}
 		f.SetPtem(ptem)
 		return f.Shape(in)
 	}, done, true
